@@ -48,6 +48,17 @@ def cargo_env(extra_rustflags=''):
 _driver = None
 
 
+def point_manifest_at_repo(crate_dir):
+    """The committed Cargo.toml depends on /repo; an isolated run (VERIF_REPO=<copy>) rewrites its own copy of the manifest."""
+    if REPO == '/repo':
+        return
+    p = os.path.join(crate_dir, 'Cargo.toml')
+    s = open(p).read()
+    s2 = s.replace('"/repo"', '"%s"' % REPO).replace('"/repo/', '"%s/' % REPO)
+    if s2 != s:
+        open(p, 'w').write(s2)
+
+
 def build_driver():
     """(Re)build the driver against /repo's current working tree with hooks on. ~60 s cold, ~5-15 s warm."""
     global _driver
@@ -55,6 +66,7 @@ def build_driver():
         return _driver
     d = os.path.join(VERIF, 'driver')
     lock = os.path.join(d, 'Cargo.lock')
+    point_manifest_at_repo(d)
     shutil.copyfile(os.path.join(REPO, 'Cargo.lock'), lock)
     t0 = time.time()
     p = subprocess.run(['cargo', 'build', '--target-dir', os.path.join(TARGET, 'driver')], cwd=d, env=cargo_env(),
